@@ -204,7 +204,11 @@ func (h *harness) send(c *devsim.Conn, k int) {
 	if h.prevBig && rc.sentStart == h.prevEnd {
 		h.bigThenReply++ // nothing between the big message and this one
 	}
-	h.srv.Send(c, rc.payload, rc.sizes)
+	if h.s.Version == "1.0" && h.s.Calls[k].NoNL {
+		h.srv.SendRaw(c, ncwire.EncodeEOM(rc.payload)) // no newline behind the delimiter
+	} else {
+		h.srv.Send(c, rc.payload, rc.sizes)
+	}
 	rc.sentEnd = c.Generated()
 	rc.sent = true
 	h.prevBig, h.prevEnd = len(rc.payload) >= bigReply, rc.sentEnd
@@ -435,6 +439,8 @@ func RunSession(s Session) mon.Result {
 	curCollide := ""
 	curSlow := false
 	curForce := ""
+	curOneLine := false     // the current call's reply is one long line
+	oneLineSinceOK := false // ... or such a reply was put on the wire since the last verified success
 	lastBigSent := 0
 	bigSinceOK := false // a reply of >= bigReply bytes was put on the wire since the last verified success
 	// echoTailSharedRead: during the current call some reply began in the middle of a transport read
@@ -467,6 +473,12 @@ func RunSession(s Session) mon.Result {
 		}
 		if about && curCollide != "" && !strings.Contains(key, "body-has-") {
 			key += "+body-has-" + curCollide + "-element"
+		}
+		if about && s.ChanLog != "" && s.ChanLog != "healthy" && !strings.Contains(key, "channel-log") {
+			key += "+channel-log-" + s.ChanLog
+		}
+		if about && curOneLine && !strings.Contains(key, "one-line-reply") {
+			key += "+one-line-reply"
 		}
 		if about && s.TTY != "" && !strings.Contains(key, "tty-crlf") {
 			key += "+tty-crlf-cut-" + s.TTY
@@ -558,6 +570,11 @@ func RunSession(s Session) mon.Result {
 		}
 		dopts = append(dopts, options.WithLogger(li))
 	}
+	var clog *failingLog
+	if s.ChanLog != "" {
+		clog = &failingLog{mode: s.ChanLog, k: s.LogK, cap: s.LogCap}
+		dopts = append(dopts, options.WithChannelLog(clog))
+	}
 	if s.ReadDelayMs > 0 {
 		// never 0 (busy polling); larger than the default widens the time a delivered tail sits in
 		// the channel queue before the NETCONF read loop picks it up
@@ -593,7 +610,7 @@ func RunSession(s Session) mon.Result {
 	obs := map[string]int64{"sessions": 1, "calls": int64(len(s.Calls))}
 	tagset := map[string]bool{
 		"ver=" + s.Version: true, fmt.Sprintf("echo=%v", s.Echo): true, "profile=" + s.Profile: true,
-		"tty=" + s.TTY: true, fmt.Sprintf("seg=%s/%d", s.Seg.Mode, s.Seg.Size): true, fmt.Sprintf("read-delay=%dms", s.ReadDelayMs): true, fmt.Sprintf("echo-marked=%v", s.Echo && !s.NoEchoMark): true, fmt.Sprintf("cell=%s/echo=%v", s.Version, s.Echo): true,
+		"tty=" + s.TTY: true, "channel-log=" + s.ChanLog: true, fmt.Sprintf("seg=%s/%d", s.Seg.Mode, s.Seg.Size): true, fmt.Sprintf("read-delay=%dms", s.ReadDelayMs): true, fmt.Sprintf("echo-marked=%v", s.Echo && !s.NoEchoMark): true, fmt.Sprintf("cell=%s/echo=%v", s.Version, s.Echo): true,
 	}
 	sawTimeout := false
 	sawStraddle := false
@@ -612,6 +629,10 @@ func RunSession(s Session) mon.Result {
 		conn.Do(func() { h.cur = k; h.writesInCall = 0; genAtCallStart = conn.Generated() })
 		curCollide = call.Collide
 		curSlow = call.SlowWrite > 0
+		if call.OneLine {
+			oneLineSinceOK = true
+		}
+		curOneLine = oneLineSinceOK
 		curForce = ""
 		var parkDone chan struct{}
 		if call.Plan == "forced" {
@@ -742,6 +763,13 @@ func RunSession(s Session) mon.Result {
 		if call.Notify != "" {
 			desc += " +notification"
 		}
+		if call.OneLine {
+			desc += fmt.Sprintf(" one-line=%dB", call.FillLen)
+			if call.NoNL {
+				desc += "/no-nl"
+			}
+			tagset["one-line-reply"] = true
+		}
 		if call.SlowWrite > 0 {
 			desc += fmt.Sprintf(" return-write-blocked-%dms", call.SlowMs)
 		}
@@ -865,6 +893,13 @@ func RunSession(s Session) mon.Result {
 				obs["success_right_after_abandoned_straddling_reply"]++
 			}
 			straddleTimeoutSinceOK = false
+			oneLineSinceOK = false
+			if call.OneLine {
+				obs["success_one_line_reply"]++
+				if call.NoNL {
+					obs["success_one_line_reply_without_trailing_newline"]++
+				}
+			}
 			if bigSinceOK {
 				obs["success_after_big_reply_on_the_wire"]++
 			}
@@ -941,6 +976,10 @@ func RunSession(s Session) mon.Result {
 				}
 				cause := fmt.Sprintf("%s:echo=%v:after-%s", s.Version, s.Echo, h.prevOutcome)
 				switch {
+				case s.ChanLog != "" && s.ChanLog != "healthy":
+					cause = fmt.Sprintf("%s:channel-log-%s:after-%s", s.Version, s.ChanLog, h.prevOutcome)
+				case curOneLine:
+					cause = fmt.Sprintf("%s:one-line-reply:after-%s", s.Version, h.prevOutcome)
 				case s.TTY != "" && s.TTY != "none":
 					cause = fmt.Sprintf("%s:tty-crlf-cut-%s:after-%s", s.Version, s.TTY, h.prevOutcome)
 				case curForce == "held":
@@ -1022,6 +1061,12 @@ func RunSession(s Session) mon.Result {
 		}
 		gen = conn.Generated()
 		obs["big_replies_sent"] = int64(h.bigSent)
+		if clog != nil {
+			obs["channel_log_sessions"] = 1
+			obs["channel_log_writes"] = atomic.LoadInt64(&clog.writes)
+			obs["channel_log_writes_refused"] = atomic.LoadInt64(&clog.refused)
+			obs["channel_log_short_writes"] = atomic.LoadInt64(&clog.short)
+		}
 		if s.TTY != "" {
 			obs["tty_sessions"] = 1
 			obs["crlf_pairs_delivered"] = atomic.LoadInt64(&sc.pairs)
@@ -1173,6 +1218,8 @@ func init() {
 			"profile race: the server answers the moment the request is complete while the client's following return write blocks 50-300 ms before reaching the device (transport wrapper in this package), with and without an earlier timeout on the session",
 			"profile forced (solo cases, process-wide yield hook): the caller's goroutine is held at its first arrival at the library's yield point nc.rpc.before-wait (<= 300 ms) while the held reply to that very request is released and the NETCONF read loop files it (seen through its debug log line and the next pass of nc.read.top); control: reply released 20-80 ms after the call started",
 			"tty line discipline (a third of the sessions): every LF of the server->client stream (framing, data, echo) is delivered as CR LF by a transport wrapper in this package, with extra read boundaries between the CR and its LF (none / framing pairs / random / every pair); chunk sizes count the bytes as the server sent them (LF form), results are compared with the LF form",
+			"a fixed 1/7 of the replies is ONE line of 1-5 kB (no newline in the payload; 1.0: with or without a newline behind ]]>]]>), in every segmentation",
+			"a fixed 1/7 of the sessions has a channel log (options.WithChannelLog) whose sink refuses the k-th / every k-th write, writes short, or is capped at 300-4300 bytes; the library documents that channel log errors are ignored, so replies must be unaffected",
 			"a planned-now reply is sent either the moment the request is complete (before the echo of the trailing return) or after the call's last transport write (nothing follows the reply)",
 			"the server answers with message-id=\"N\" in double quotes, N the id of the request, and replies never precede the complete request",
 			"random reply bodies and request arguments contain none of: ']]>]]>', '#', '</rpc>', 'message-id', 'subscription-id' (checked by brute force by the generator); " +
